@@ -143,6 +143,13 @@ func (m *Machine) callValue(fv Value, args []Value) Value {
 }
 
 func (m *Machine) callFn(fn *ssa.Function, args []Value, free []Value) Value {
+	if repl, ok := m.Cfg.Stubs[fn.String()]; ok && fn.Pkg != nil {
+		// harness-declared stub: a function of the same package stands in for fn
+		if rf := fn.Pkg.Func(repl); rf != nil && rf != fn {
+			return m.callFn(rf, args, nil)
+		}
+		m.unsupported("stub %s for %s not found", repl, fn.String())
+	}
 	if nf, ok := m.natives[fn.String()]; ok {
 		return nf(m, args)
 	}
